@@ -19,6 +19,22 @@ package main
 //	fds         /proc/self/fd is back to its size before the call within 200 ms (a peer socket the scenario itself
 //	            closes meanwhile is subtracted from the baseline)
 //
+// … and, next to the classes, the RAW observation the class `resends` was computed from, for the timed layer of the
+// Lean model (RV.Exchange.Timed; the driver evaluates the model's own bounds on these numbers):
+//
+//	t0=0        the clock: whole milliseconds (rounded down) since the instant just before Exchange was CALLED.  The
+//	            model's t0 (first write, ticker creation) is not before that instant, so every lower bound the model
+//	            proves for a write time holds a fortiori with t0 := 0 on this clock
+//	arr         arrival instant of every request datagram at the peer (those before the sentinel), comma separated;
+//	            "-" = the peer saw none, "na" = the peer cannot report (closed port, vanished / deaf peer)
+//	end         the instant Exchange had returned by (taken right after it returned); "na" if it never did (HANG)
+//	d           Client.Retry in milliseconds
+//
+// A datagram is seen after it was written, a write follows the tick, a tick is never delivered before it is due
+// (the runtime compares against the same monotonic clock time.Now reads), Exchange does not return before its
+// last successful write has completed (Close waits for a write in flight; later writes fail): so on this clock
+// arr[i] >= i*d and len(arr) <= 1 + end/d hold of the unchanged code whatever the load - lateness only helps.
+//
 // Further dimensions:
 //
 //	peer nodial:<v>  the address cannot be dialled (v=0 "127.0.0.1" without a port, 1 port 99999, 2 unixgram path that does
@@ -211,6 +227,13 @@ type c08scenario struct {
 
 type c08obs struct {
 	class, pkt, first, verbatim, resends, prompt, silent, goroutines, fds string
+	// the raw observation behind `resends` (see the head of the file)
+	arr, end string
+	retryMs  int
+	// timedBad: the numbers violate the model's upper bounds as the Lean driver will evaluate them (same formula, same
+	// allowance).  Used ONLY to decide whether the scenario is measured again, like the other timing clauses; the
+	// verdict is the driver's.
+	timedBad bool
 	// early: a context.WithTimeout scenario whose deadline passed before the request was even written (a machine busy
 	// enough to stall the call for the whole timeout): not what the scenario is about, it is re-run like a failed timing clause
 	early bool
@@ -218,12 +241,35 @@ type c08obs struct {
 
 func (o c08obs) String() string {
 	return "class=" + o.class + " pkt=" + o.pkt + " first=" + o.first + " verbatim=" + o.verbatim + " resends=" + o.resends +
-		" prompt=" + o.prompt + " silent=" + o.silent + " goroutines=" + o.goroutines + " fds=" + o.fds
+		" prompt=" + o.prompt + " silent=" + o.silent + " goroutines=" + o.goroutines + " fds=" + o.fds +
+		" t0=0 arr=" + o.arr + " end=" + o.end + " d=" + itoa(o.retryMs)
+}
+
+// c08TolMs: the allowance (milliseconds) with which the model's bounds are evaluated on the raw numbers; the same
+// constant as `RV.Driver.c08TolMs`.  The bounds need none (see the head of the file); one millisecond is a margin
+// for the rounding of the printed values.
+const c08TolMs = 1
+
+// c08TimedBad mirrors RV.Exchange.Timed.obsNotEarly / obsCountOk (d = max(Retry, 0) in ms; x/0 = 0).
+func c08TimedBad(arr []int, end, dms int) bool {
+	if dms < 0 {
+		dms = 0
+	}
+	for i, a := range arr {
+		if i*dms > a+c08TolMs {
+			return true
+		}
+	}
+	q := 0
+	if dms > 0 {
+		q = (end + c08TolMs) / dms
+	}
+	return len(arr) > 1+q
 }
 
 // timingOK: none of the clauses that depend on scheduling failed.
 func (o c08obs) timingOK() bool {
-	return !o.early && o.prompt != "false" && o.resends != "toofew" && o.resends != "toomany" && o.goroutines != "false" && o.fds != "false"
+	return !o.early && !o.timedBad && o.prompt != "false" && o.resends != "toofew" && o.resends != "toomany" && o.goroutines != "false" && o.fds != "false"
 }
 
 func c08Class(err error) string {
@@ -288,7 +334,8 @@ func (l *c08peerLog) vanishReader(conn *net.UnixConn, path string, fdAdjust *ato
 }
 
 func runC08(sc *c08scenario) c08obs {
-	obs := c08obs{pkt: "-", first: "-", verbatim: "na", resends: "na", prompt: "na", silent: "na", goroutines: "na", fds: "na"}
+	obs := c08obs{pkt: "-", first: "-", verbatim: "na", resends: "na", prompt: "na", silent: "na", goroutines: "na", fds: "na",
+		arr: "na", end: "na", retryMs: int(sc.retry / time.Millisecond)}
 	_, encErr := sc.req.Encode()
 
 	// peer and sentinel sockets (part of the descriptor baseline)
@@ -499,6 +546,8 @@ func runC08(sc *c08scenario) c08obs {
 	}
 	close(stop)
 	obs.class = c08Class(r.err)
+	endMs := int(r.at.Sub(start) / time.Millisecond)
+	obs.end = itoa(endMs)
 	if encErr != nil && obs.class == "parse-error" {
 		obs.class = "encode-err"
 	}
@@ -607,7 +656,20 @@ func runC08(sc *c08scenario) c08obs {
 	if len(log.times) > 0 {
 		t1 = log.times[0]
 	}
+	arrMs := make([]int, 0, before)
+	for _, at := range log.times[:before] {
+		arrMs = append(arrMs, int(at.Sub(start)/time.Millisecond))
+	}
 	log.mu.Unlock()
+	obs.arr = "-"
+	if len(arrMs) > 0 {
+		parts := make([]string, len(arrMs))
+		for i, a := range arrMs {
+			parts[i] = itoa(a)
+		}
+		obs.arr = strings.Join(parts, ",")
+	}
+	obs.timedBad = c08TimedBad(arrMs, endMs, obs.retryMs)
 
 	if len(dgrams) > 0 {
 		obs.first = hx(dgrams[0])
